@@ -287,6 +287,12 @@ func (u *Unit) entryHeapAxioms(name string, h Term) {
 		}
 		return
 	}
+	if es == SVal && !u.BV {
+		if f, ok := u.closedHeapFact(h, IntLit(1)); ok {
+			u.D.Axiom("closed:"+name, f.S)
+		}
+		return
+	}
 	switch {
 	case es == SRef:
 		r := u.D.Bound("r", SRef)
@@ -323,6 +329,10 @@ func (u *Unit) closedHeapFact(h Term, bound Term) (Term, bool) {
 		return Forall([]Term{r}, Imp(holder, before(Select(h, r))), []Term{Select(h, r)}), true
 	case es == SSlice:
 		return Forall([]Term{r}, Imp(holder, before(App("s_base", SRef, Select(h, r)))), []Term{Select(h, r)}), true
+	case es == SVal:
+		// an interface-typed field may hold a pointer: it points to something that exists
+		_, un := u.boxFn(SRef)
+		return Forall([]Term{r}, Imp(holder, before(App(un, SRef, Select(h, r)))), []Term{Select(h, r)}), true
 	case strings.HasPrefix(string(es), "(Array "):
 		inner := arrElemSort(es)
 		ksort := arrKeySort(es)
